@@ -63,6 +63,8 @@ def run(chk):
         out2 = json.loads(vlib.harness("gensfacts", "--curve", c, "--cap", cap, "--parties", parties).stdout)
         if out2["digest_G"] != facts["digest_G"] or out2["digest_H"] != facts["digest_H"]:
             chk.violation("gens-process-%s" % c, {"curve": c}, "generator table differs between two processes")
+    # (B1) the composed machine: table histories x byte-level adversary through System's prover and verifier (MC_Library)
+    vlib.library_mc(chk, probes=("NV_AcceptedAfterIncrease",))
     # (B3) recorded lives of generator tables (both roles of random sessions on toy curves): every stored table after new / increase_capacity /
     # clone / serialise+deserialise and every aggregated view is a window of ONE generator function for the whole trace file (Library!Holds,
     # GensView), and the generators prove / verify work with are party 0's window of the role's table (GensBound)
